@@ -51,6 +51,9 @@ func SetGopool(maxGoroutinesAmount int, maxGoroutineIdleDuration time.Duration) 
 
 // Go similar to go func, but return false if insufficient resources.
 func Go(fn func()) bool {
+	if verifOn && verifSpawn != nil {
+		return verifSpawn(fn)
+	}
 	if err := _gopool.Go(fn); err != nil {
 		Warnf("%s", err.Error())
 		return false
@@ -60,18 +63,30 @@ func Go(fn func()) bool {
 
 // AnywayGo similar to go func, but concurrent resources are limited.
 func AnywayGo(fn func()) {
+	if verifOn && verifSpawn != nil {
+		verifSpawn(fn)
+		return
+	}
 	_gopool.MustGo(fn)
 }
 
 // MustGo always try to use goroutine callbacks
 // until execution is complete or the context is canceled.
 func MustGo(fn func(), ctx ...context.Context) error {
+	if verifOn && verifSpawn != nil {
+		verifSpawn(fn)
+		return nil
+	}
 	return _gopool.MustGo(fn, ctx...)
 }
 
 // TryGo tries to execute the function via goroutine.
 // If there are no concurrent resources, execute it synchronously.
 func TryGo(fn func()) {
+	if verifOn && verifSpawn != nil {
+		verifSpawn(fn)
+		return
+	}
 	_gopool.TryGo(fn)
 }
 
